@@ -54,9 +54,10 @@ QUARTERS = [0, 16, 32, 48, 112, 160, 1600, -32, -16, 8, 40, 4, 12, 36, -8, 24]
 
 
 class Gen:
-    def __init__(self, seed, html=False):
+    def __init__(self, seed, html=False, sort_loop_sets=False):
         self.r = random.Random(seed)
         self.html = html
+        self.sort_loop_sets = sort_loop_sets   # C17 (purity only, no expected text): also sort sets that depend on a loop variable
 
     # ---------------- documents
     def scalar(self):
@@ -291,11 +292,11 @@ class Gen:
         group, sort = [], 0
         if cur is not None and cur["t"] == "A" and cur["e"] and all(x["t"] == "O" and any(m["k"] == U("year") for m in x["m"]) for x in cur["e"]) and self.r.random() < 0.7:
             group = U("year")
-        elif cur is not None and self.r.random() < 0.35 and not setp["loop"]:      # (a set below a loop variable differs per iteration: its kinds are not known here)
+        elif cur is not None and self.r.random() < 0.35 and (self.sort_loop_sets or not setp["loop"]):      # (a set below a loop variable differs per iteration: its kinds are not known here)
             # numbers (of any mix of kinds: they compare by value) or strings; a set of mixed non-number kinds is ordered by kind first,
             # which the documentation does not describe
             homog = cur["t"] == "O" or (cur["e"] and (all(x["t"] == "N" for x in cur["e"]) or all(x["t"] == "S" for x in cur["e"])))
-            if homog:
+            if homog or self.sort_loop_sets:
                 sort = self.r.choice([1, 2])
         if group and self.r.random() < 0.5:
             sort = self.r.choice([1, 2])
